@@ -36,14 +36,18 @@ Definition apc_inv (p : pcT) (n : bool) (i nx : nat) (t : dst) : Prop :=
 
 Definition AInv (k : coreT) : Prop :=
   let '(p, n, i, nx, d, e, pd, t) := k in
-  apc_inv p n i nx t /\ apend_ok pd p /\ (d = true -> c_h c = HDetach) /\ (e = true -> p = PExited).
+  match p with
+  | PErr _ => t <> DBad      (* the model itself gave up (no facts for a header block / out of fuel) *)
+  | _ => apc_inv p n i nx t /\ apend_ok pd p /\ (d = true -> c_h c = HDetach) /\ (e = true -> p = PExited)
+  end.
 
 Definition Inv (s : st) : Prop := AInv (core s).
 
 Lemma Inv_not_bad s : Inv s -> ds s <> DBad.
 Proof.
-  unfold Inv, core, AInv. intros [H _]. unfold apc_inv, ending, opened, fresh, settled in H.
-  destruct (pc s) as [| | | | | | | | | | | |[]| | | |];
+  unfold Inv, core, AInv. intros H.
+  destruct (pc s) as [| | | | | | | | | | | |[]| | | |]; try exact H; destruct H as [H _];
+    unfold apc_inv, ending, opened, fresh, settled in H;
     repeat match goal with
            | H : _ /\ _ |- _ => destruct H
            | H : _ \/ _ |- _ => destruct H
@@ -51,97 +55,15 @@ Proof.
            end; try congruence.
 Qed.
 
-Lemma Inv_exited s : Inv s -> exited s = true -> settled (ds s).
+Lemma Inv_exited s : Inv s -> exited s = true -> (forall w, pc s <> PErr w) -> settled (ds s).
 Proof.
-  unfold Inv, core, AInv. intros (H & _ & _ & He) E. rewrite (He E) in H. exact H.
+  unfold Inv, core, AInv. intros H E Hne.
+  destruct (pc s) eqn:Hpc; try (exfalso; eapply Hne; reflexivity);
+    destruct H as (H & _ & _ & He); specialize (He E); try discriminate He.
+  exact H.
 Qed.
 
-(* ---------- tactics ---------- *)
-Ltac simpg := cbn [pc ndc idx next detached exited pend trace sm wf rf ffd dof ccb responded cur_exp cur_fr sent scq
-                  set_pc set_ndc set_idx set_next set_detached set_exited set_pend set_sm set_wf set_rf
-                  set_ffd set_dof set_ccb set_responded set_cur_exp set_cur_fr set_sent set_scq on_sm dstep Nat.eqb].
-Ltac normg := repeat (progress (simpg; autorewrite with c05)).
-Ltac brk :=
-  repeat match goal with
-         | H : _ /\ _ |- _ => destruct H
-         | H : exists _, _ |- _ => destruct H
-         | H : _ \/ _ |- _ => destruct H
-         end.
-Ltac rwg :=
-  repeat match goal with
-         | H : ds ?s = _ |- context [ds ?s] => rewrite H
-         | H : idx ?s = O |- context [idx ?s] => is_var s; rewrite H
-         | H : idx ?s = S ?x |- context [idx ?s] => is_var s; is_var x; rewrite H
-         | H : ndc ?s = _ |- context [ndc ?s] => is_var s; rewrite H
-         | H : pend ?s = _ |- context [pend ?s] => is_var s; rewrite H
-         | H : next ?s = _ |- context [next ?s] => is_var s; rewrite H
-         end; simpg; rewrite ?Nat.eqb_refl; simpg.
-(* pull every conditional of the (raw) result state out *)
-Ltac ifs := repeat match goal with |- context [if ?b then _ else _] => destruct b eqn:? end.
-Ltac leaf :=
-  intros; try congruence; try discriminate; eauto;
-  try (match goal with H : ?P -> _ = _, H' : ?P |- _ => specialize (H H'); first [discriminate H | congruence] end).
-Ltac fin0 := repeat split; leaf.
-Ltac fin1 :=
-  repeat split;
-  first [ solve [leaf] | solve [left; fin0] | solve [right; fin0] | solve [right; eexists; fin0]
-        | solve [split; [|left]; fin0] | solve [split; [|right]; fin0] | leaf ].
-(* [prep HI Hpc]: open the invariant of the source state (whose pc is known) *)
-Ltac prep HI Hpc :=
-  unfold Inv, core, AInv in HI; rewrite Hpc in HI;
-  unfold apc_inv, apend_ok, ending, opened, settled, fresh in HI; brk;
-  try match goal with H : context [match pend ?s with _ => _ end] |- _ => destruct (pend s) eqn:?; try discriminate H end;
-  brk.
-Ltac fin :=
-  cbv zeta; unfold finally_close, loop_exit; ifs;
-  unfold Inv, core; normg; rwg;
-  unfold AInv, apc_inv, apend_ok, ending, opened, settled, fresh; fin1.
-
-(* ---------- reads ---------- *)
-Lemma after_read_hdr_Inv s m r :
-  Inv s -> pc s = PWaitHdr -> Inv (after_read c (set_sm m s) WHdr r).
-Proof.
-  intros HI Hpc. unfold after_read. destruct r; prep HI Hpc; fin.
-Qed.
-
-Lemma body_got_cases r0 d :
-  (exists r1, body_got c r0 d = PData r1 d) \/ (exists r1, body_got c r0 d = PBody r1) \/
-  body_got c r0 d = PE400 \/ body_got c r0 d = PAfterBody.
-Proof.
-  unfold body_got. destruct r0; eauto.
-  - destruct (parse_hex _) as [[|v]|]; eauto.
-    destruct (c_maxbody c <? tot + N.pos v)%N; eauto.
-  - destruct (bytes_eqb d crlf); eauto.
-  - destruct (bytes_eqb d crlf); eauto.
-Qed.
-
-Lemma after_read_body_Inv s m r0 r :
-  Inv s -> pc s = PWaitBody r0 -> Inv (after_read c (set_sm m s) (WBody r0) r).
-Proof.
-  intros HI Hpc. unfold after_read. destruct r.
-  - destruct (body_got_cases r0 d) as [[r1 E]|[[r1 E]|[E|E]]]; rewrite E; prep HI Hpc; fin.
-  - prep HI Hpc; fin.
-  - prep HI Hpc; fin.
-  - prep HI Hpc; fin.
-Qed.
-
-Lemma do_read_eq s w sp p :
-  do_read c s w sp = do_read c (set_pc p s) w sp.
-Proof.
-  unfold do_read. cbn [sm set_pc]. destruct (issue_read _ _ _ _) as [r m].
-  unfold after_read. destruct r; reflexivity.
-Qed.
-
-Lemma do_read_hdr_Inv s sp : Inv s -> pc s = PWaitHdr -> Inv (do_read c s WHdr sp).
-Proof.
-  intros HI Hpc. unfold do_read. destruct (issue_read _ _ _ _) as [r m].
-  apply after_read_hdr_Inv; assumption.
-Qed.
-
-Lemma do_read_body_Inv s r0 sp : Inv s -> pc s = PWaitBody r0 -> Inv (do_read c s (WBody r0) sp).
-Proof.
-  intros HI Hpc. unfold do_read. destruct (issue_read _ _ _ _) as [r m].
-  apply after_read_body_Inv; assumption.
-Qed.
+Lemma Inv_err s w : Inv s -> Inv (set_pc (PErr w) s).
+Proof. intro H. apply Inv_not_bad in H. exact H. Qed.
 
 End Inv.
